@@ -291,6 +291,8 @@ structure Gw where
   resetThrottle : Int := 0
   ord : Nat := 0                              -- iteration order parameter for map ranges
   ordCtr : Nat := 0                           -- number of randomised map ranges so far (ord ≥ 6)
+  sched : Nat := 0                            -- scheduler policy: 0 oldest head first, 1 newest head first, ≥ 2 pseudo-random
+  schedCtr : Nat := 0                         -- number of scheduling decisions so far
   flat : Bool := false                        -- apiEncoding jsonflat
   hauth : Bool := false                       -- Config.HeaderAuth set (hauth.svc.login)
   out : Array String := #[]
